@@ -19,6 +19,11 @@ impl AdjustHeightsHeap {
     pub(crate) fn is_empty(&self) -> bool {
         self.length == 0
     }
+    /// verification hook: (max_height_seen, number of queued nodes counted from the queues)
+    #[cfg(cormacrelf_incremental_rs_verif)]
+    pub(crate) fn verif_info(&self) -> (i32, usize) {
+        (self.max_height_seen, calculate_len(&self.queues))
+    }
     pub(crate) fn max_height_allowed(&self) -> i32 {
         self.queues.len() as i32 - 1
     }
